@@ -2,7 +2,9 @@
    [run opcode argument].  Extracted to OCaml (bin/dlms_model) and also evaluated in the
    kernel by generated cases files.  Opcode names are parsed from the comments below by
    harness/lib.py — keep the format  "| <n> (* <name> *) =>". *)
-From Dlms Require Import Base CrcModel CrcSpec FieldsModel FieldsSpec AddrModel AddrSpec WrapperModel WrapperProofs TimeModel TimeProofs AxdrModel AxdrSpec AxdrProofs FrameModel FrameProofs HdlcConnModel HdlcScript HdlcLinkProofs ParsersModel AssocModel AssocProofs.
+From Dlms Require Import Base CrcModel CrcSpec FieldsModel FieldsSpec AddrModel AddrSpec WrapperModel WrapperSpec
+  TimeModel TimeSpec AxdrModel AxdrSpec AxdrBridge FrameModel FrameSpec HdlcConnModel HdlcScript HdlcLinkSpec
+  ParsersModel AssocModel AssocSpec.
 
 Definition v_bools (l : list bool) : V := VList (map VBool l).
 Definition as_bools (v : V) : list bool := map as_b (as_list v).
@@ -225,12 +227,12 @@ Definition run (op : N) (a : V) : V :=
   (* ---- HDLC link and receive path (C11, C10) ---- *)
   | 110 (* link_step *) =>
       let l := as_link a 0 in
-      let d := if as_n (arg 5 a) =? 0 then HdlcLinkProofs.DSend else HdlcLinkProofs.DRecv in
+      let d := if as_n (arg 5 a) =? 0 then HdlcLinkSpec.DSend else HdlcLinkSpec.DRecv in
       let '(r, l') := link_step l d (as_kind (arg 6 a)) (as_n (arg 7 a)) (as_n (arg 8 a)) in
       VList [v_res (fun _ => VBool true) r; VList (v_link l')]
   | 111 (* conn_script *) => VList (script_run conn_init (as_list a))
   | 112 (* spec_nrm *) =>
-      let d := if as_n (arg 1 a) =? 0 then HdlcLinkProofs.DSend else HdlcLinkProofs.DRecv in
+      let d := if as_n (arg 1 a) =? 0 then HdlcLinkSpec.DSend else HdlcLinkSpec.DRecv in
       VList [v_optn (nrm_must (as_n (arg 0 a)) d (as_kind (arg 2 a))); v_optn (nrm_may (as_n (arg 0 a)) d (as_kind (arg 2 a)))]
   (* ---- profile buffers and object lists (C15) ---- *)
   | 120 (* profile_parse_entries *) =>
@@ -246,12 +248,12 @@ Definition run (op : N) (a : V) : V :=
   | 130 (* assoc_step *) =>
       (* pre state dir kind a b proof *)
       let e := mk (as_n (arg 3 a)) (as_b (arg 4 a)) (as_b (arg 5 a)) (as_n (arg 6 a)) in
-      let d := if as_n (arg 2 a) =? 0 then AssocProofs.DSend else AssocProofs.DRecv in
-      let '(r, s') := AssocProofs.step (as_b (arg 0 a)) (as_n (arg 1 a)) d e in
+      let d := if as_n (arg 2 a) =? 0 then AssocSpec.DSend else AssocSpec.DRecv in
+      let '(r, s') := AssocSpec.step (as_b (arg 0 a)) (as_n (arg 1 a)) d e in
       VList [v_res (fun _ => VBool true) r; VN s']
   | 131 (* assoc_spec *) =>
       let e := mk (as_n (arg 2 a)) (as_b (arg 3 a)) (as_b (arg 4 a)) (as_n (arg 5 a)) in
-      let d := if as_n (arg 1 a) =? 0 then AssocProofs.DSend else AssocProofs.DRecv in
-      VList [v_optn (AssocProofs.must (as_n (arg 0 a)) d e); v_optn (AssocProofs.may (as_n (arg 0 a)) d e)]
+      let d := if as_n (arg 1 a) =? 0 then AssocSpec.DSend else AssocSpec.DRecv in
+      VList [v_optn (AssocSpec.must (as_n (arg 0 a)) d e); v_optn (AssocSpec.may (as_n (arg 0 a)) d e)]
   | _ => bad_args
   end.
